@@ -16,7 +16,9 @@
 //
 // Category expressions are resolved as far as they are literal: string literals, package constants, package
 // level []string variables, the values of a package level map indexed into (webhookStatusCategories[status]);
-// a selector on the receiver (a.Category) becomes CField "Category"; anything else CExpr "<source text>".
+// a selector on the receiver (a.Category) becomes CField "Category"; the two loop shapes of routers/base.go
+// (Name() of every element of r.categories / of the element of r.categories picked by a loop) become
+// CAllOf "categories.Name" / CElemOf "categories.Name"; anything else CExpr "<source text>".
 //
 // Fails loudly (exit 2) when the source no longer has the expected shape (no registered types, a registered
 // type without Execute, saveResult/routeToCategory missing, NewResultInfo not called in a Results method, ...).
@@ -385,8 +387,15 @@ func (p *pkgInfo) cats(e ast.Expr, fn *ast.FuncDecl, recv string, depth int) []c
 		}
 		if depth < 4 {
 			if d := localDef(fn, v.Name); d != nil {
+				if c, ok := p.allOfPattern(v.Name, d, fn, recv); ok {
+					return []catExpr{c}
+				}
 				return p.cats(d, fn, recv, depth+1)
 			}
+		}
+	case *ast.CallExpr:
+		if c, ok := p.elemOfPattern(v, fn, recv); ok {
+			return []catExpr{c}
 		}
 	case *ast.CompositeLit:
 		if at, ok := v.Type.(*ast.ArrayType); ok && isIdent(at.Elt, "string") {
@@ -400,6 +409,165 @@ func (p *pkgInfo) cats(e ast.Expr, fn *ast.FuncDecl, recv string, depth int) []c
 		}
 	}
 	return []catExpr{{"CExpr", p.src(e)}}
+}
+
+func isRecvField(e ast.Expr, recv string) (string, bool) {
+	se, ok := e.(*ast.SelectorExpr)
+	if !ok || !isIdent(se.X, recv) || recv == "" {
+		return "", false
+	}
+	return se.Sel.Name, true
+}
+
+// recognises, in fn,
+//
+//	name := make([]string, len(R.F)) ; for i := range R.F { name[i] = R.F[i].M() }
+//
+// (R the receiver, the loop body exactly that assignment, the range over the whole slice): the list of M() of
+// EVERY element of R.F  ->  CAllOf "F.M"
+func (p *pkgInfo) allOfPattern(name string, def ast.Expr, fn *ast.FuncDecl, recv string) (catExpr, bool) {
+	mk, ok := def.(*ast.CallExpr)
+	if !ok || !isIdent(mk.Fun, "make") || len(mk.Args) != 2 {
+		return catExpr{}, false
+	}
+	ln, ok := mk.Args[1].(*ast.CallExpr)
+	if !ok || !isIdent(ln.Fun, "len") || len(ln.Args) != 1 {
+		return catExpr{}, false
+	}
+	field, ok := isRecvField(ln.Args[0], recv)
+	if !ok {
+		return catExpr{}, false
+	}
+	var res catExpr
+	found, writes := false, 0
+	ast.Inspect(fn.Body, func(x ast.Node) bool {
+		// every write through name[...] is counted: exactly one (the loop's) is allowed
+		if as, ok := x.(*ast.AssignStmt); ok {
+			for _, l := range as.Lhs {
+				if ix, ok := l.(*ast.IndexExpr); ok && isIdent(ix.X, name) {
+					writes++
+				}
+			}
+		}
+		rs, ok := x.(*ast.RangeStmt)
+		if !ok || rs.Value != nil || rs.Key == nil || rs.Tok != token.DEFINE {
+			return true
+		}
+		f2, ok := isRecvField(rs.X, recv)
+		if !ok || f2 != field || len(rs.Body.List) != 1 {
+			return true
+		}
+		key, ok := rs.Key.(*ast.Ident)
+		if !ok {
+			return true
+		}
+		as, ok := rs.Body.List[0].(*ast.AssignStmt)
+		if !ok || as.Tok != token.ASSIGN || len(as.Lhs) != 1 || len(as.Rhs) != 1 {
+			return true
+		}
+		lhs, ok := as.Lhs[0].(*ast.IndexExpr)
+		if !ok || !isIdent(lhs.X, name) || !isIdent(lhs.Index, key.Name) {
+			return true
+		}
+		call, ok := as.Rhs[0].(*ast.CallExpr)
+		if !ok || len(call.Args) != 0 {
+			return true
+		}
+		sel, ok := call.Fun.(*ast.SelectorExpr)
+		if !ok {
+			return true
+		}
+		el, ok := sel.X.(*ast.IndexExpr)
+		if !ok || !isIdent(el.Index, key.Name) {
+			return true
+		}
+		f3, ok := isRecvField(el.X, recv)
+		if !ok || f3 != field {
+			return true
+		}
+		res, found = catExpr{"CAllOf", field + "." + sel.Sel.Name}, true
+		return true
+	})
+	if !found || writes != 1 {
+		return catExpr{}, false
+	}
+	return res, true
+}
+
+// recognises, in fn, the expression  v.M()  where v is only ever assigned inside
+//
+//	for _, c := range R.F { ... v = c ... }
+//
+// (R the receiver): M() of an element of R.F  ->  CElemOf "F.M"
+func (p *pkgInfo) elemOfPattern(call *ast.CallExpr, fn *ast.FuncDecl, recv string) (catExpr, bool) {
+	if len(call.Args) != 0 {
+		return catExpr{}, false
+	}
+	sel, ok := call.Fun.(*ast.SelectorExpr)
+	if !ok {
+		return catExpr{}, false
+	}
+	v, ok := sel.X.(*ast.Ident)
+	if !ok || v.Name == recv {
+		return catExpr{}, false
+	}
+	if p.isParam(fn, v.Name) >= 0 {
+		return catExpr{}, false
+	}
+	field := ""
+	good, bad := 0, 0
+	var inRange []*ast.RangeStmt
+	var visit func(n ast.Node)
+	visit = func(n ast.Node) {
+		ast.Inspect(n, func(x ast.Node) bool {
+			switch t := x.(type) {
+			case *ast.RangeStmt:
+				if x == n {
+					return true
+				}
+				inRange = append(inRange, t)
+				visit(t.Body)
+				inRange = inRange[:len(inRange)-1]
+				return false
+			case *ast.AssignStmt:
+				for i, l := range t.Lhs {
+					if !isIdent(l, v.Name) {
+						continue
+					}
+					ok := false
+					if len(inRange) > 0 && len(t.Lhs) == len(t.Rhs) {
+						rs := inRange[len(inRange)-1]
+						if f, isf := isRecvField(rs.X, recv); isf && rs.Value != nil {
+							if val, isid := rs.Value.(*ast.Ident); isid && isIdent(t.Rhs[i], val.Name) && (field == "" || field == f) {
+								field, ok = f, true
+							}
+						}
+					}
+					if ok {
+						good++
+					} else {
+						bad++
+					}
+				}
+			case *ast.ValueSpec:
+				for i, id := range t.Names {
+					if id.Name == v.Name && i < len(t.Values) {
+						bad++ // declared with an initial value: not only loop-assigned
+					}
+				}
+			case *ast.UnaryExpr:
+				if t.Op == token.AND && isIdent(t.X, v.Name) {
+					bad++ // address taken
+				}
+			}
+			return true
+		})
+	}
+	visit(fn.Body)
+	if good == 0 || bad > 0 {
+		return catExpr{}, false
+	}
+	return catExpr{"CElemOf", field + "." + sel.Sel.Name}, true
 }
 
 // walks the methods reachable from `start` on struct T (own + embedded methods called through the receiver)
